@@ -3,9 +3,13 @@ package c04
 
 import (
 	"fmt"
+	"math/rand"
+	"sort"
 	"testing"
 	"time"
 
+	"verif/harness/gen"
+	"verif/harness/model"
 	"verif/harness/oracle"
 	"verif/harness/scen"
 	"verif/harness/sysrun"
@@ -42,4 +46,32 @@ func TestReloadsRestarts(t *testing.T) {
 	sub := vf.Cur().Sub("reloads-restarts", fmt.Sprintf(rule, "config reloads (dispatcher restarts), instance restarts with/without snapshot"), 20)
 	sysrun.Run(t, "C04", sub, sysrun.Family{Name: "reload", Quick: 100, Thorough: 5000, NonTrivial: nt,
 		Opt: scen.GenOpt{Horizon: 4 * time.Hour, Depth: 2, Fanout: 2, Reloads: true, Restarts: true, Silences: true}}, checkers(0))
+}
+
+// reloadChangesRepeat: one long-firing group, a reload that only changes repeat_interval (lower or
+// higher), hours of virtual time afterwards.
+func reloadChangesRepeat(r *rand.Rand) *scen.Scenario {
+	gw, gi := 10*time.Second, gen.Pick(r, []time.Duration{30 * time.Second, 5 * time.Minute})
+	ri1 := gen.Pick(r, []time.Duration{time.Hour, 4 * time.Hour})
+	ri2 := gen.Pick(r, []time.Duration{10 * time.Minute, 30 * time.Minute, 2 * time.Hour})
+	gb := []string{"alertname"}
+	mk := func(ri time.Duration) *scen.Config {
+		return &scen.Config{ResolveTimeout: 5 * time.Minute,
+			Route:     &model.RouteSpec{Receiver: "r0", GroupBy: &gb, GroupWait: &gw, GroupInterval: &gi, RepeatInterval: &ri},
+			Receivers: []scen.Receiver{{Name: "r0", Integs: []scen.Integ{{SendResolved: true}}}}}
+	}
+	s := &scen.Scenario{Config: mk(ri1), Duration: 14 * time.Hour, Retention: 120 * time.Hour, MaintenanceInterval: 15 * time.Minute}
+	l := model.Labels{"alertname": "A", "sev": "crit"}
+	end := 5 * time.Minute
+	for at := 7*time.Second + 123*time.Millisecond; at < s.Duration; at += 2 * time.Minute {
+		s.Ops = append(s.Ops, scen.Op{At: at, Kind: "alerts", Alerts: []scen.PostSpec{{Labels: l, EndOff: &end}}})
+	}
+	s.Ops = append(s.Ops, scen.Op{At: ri1/2 + 17*time.Second + 500*time.Millisecond, Kind: "reload", Config: mk(ri2)})
+	sort.SliceStable(s.Ops, func(i, j int) bool { return s.Ops[i].At < s.Ops[j].At })
+	return s
+}
+
+func TestReloadChangesRepeat(t *testing.T) {
+	sub := vf.Cur().Sub("reload-changes-repeat", fmt.Sprintf(rule, "targeted: one continuously firing group, a reload that only changes repeat_interval (4h/1h -> 10m/30m/2h), 14 h of virtual time"), 10)
+	sysrun.Run(t, "C04", sub, sysrun.Family{Name: "rcr", Quick: 40, Thorough: 1500, NonTrivial: nt, Gen: reloadChangesRepeat}, checkers(0))
 }
